@@ -44,3 +44,50 @@ Theorem c10_classify_invariant : forall present info frame fcs, carried present 
   end.
 Proof. exact classify_invariant. Qed.
 Print Assumptions c10_classify_invariant.
+
+(* ---- libwifi_create_radiotap AS TRANSLATED from gen/misc/radiotap.c on this run (Gen/Sites.v): the loop over the 23 field numbers (induction on the field number), the alignment
+   LOADED from the namespace table's bytes (low nibble of radiotap_ns.align_size[field]), the padding expression, the switch.  With the table bytes as Gen/Rtap.v lists them, for EVERY
+   carried selection the routine is never stuck, returns the Spec's total length, stores it in it_len, and its staging writes fill [rtap_data, rtap_data + len - 8) in order without
+   gap before the two final copies into the caller's buffer.  table_at, fills_from, carried, lay are defined in Proofs/CodeRadiotapGen.v / Spec. ---- *)
+From Coq Require Import String.
+From LW Require Import Base.Bytes Base.CExpr Gen.Sites Gen.Rtap Spec.CodeSpec Proofs.CodeRadiotapGen.
+Local Open Scope string_scope.
+Local Open Scope Z_scope.
+
+
+Theorem c10_code_rtgen_c10_rtap : forall m rho present cnt base ants hdr T,
+  rho "radiotap_ns.align_size" = T -> 0 < T < 2 ^ 62 ->
+  (forall k, 0 <= k < 23 -> m (T + k) = Some (fst (table_entry k) + 16 * snd (table_entry k))) ->
+  rho "info->present" = present -> carried present -> rho "radiotap_ns.n_bits" = 23 ->
+  rho "info->antenna_count" = cnt -> 0 <= cnt <= 255 -> rho "&rtap_data" = base -> 0 <= base < 2 ^ 62 ->
+  rho "&info->antennas" = ants -> 0 <= ants < 2 ^ 62 -> rho "radiotap_header" = hdr -> 0 <= hdr < 2 ^ 62 ->
+  let len := snd (s_field_offsets present) in
+  exists rho' evs,
+    (forall F, (400 <= F)%nat ->
+       exec F m rho [] body_libwifi_create_radiotap =
+         Returned (Some len) rho'
+           (evs ++ [("memcpy", [hdr; wrap u64 (rho "&rtap_hdr"); 8]); ("memcpy", [hdr + 8; base; len - 8])])) /\
+    fills_from base evs (base + (len - 8)) /\
+    rho' "rtap_hdr.it_len" = len /\ rho' "rtap_hdr.it_present" = present /\ rho' "rtap_hdr.it_version" = 0 /\ rho' "rtap_hdr.it_pad" = 0.
+Proof. exact code_rtgen_c10_rtap. Qed.
+Print Assumptions c10_code_rtgen_c10_rtap.
+
+(* goal 2 on body_libwifi_create_radiotap itself *)
+Theorem c10_code_rtgen_layout : forall m rho present cnt base ants hdr T algn sz,
+  rho "radiotap_ns.align_size" = T -> 0 < T < 2 ^ 62 -> table_at m T algn sz ->
+  (forall k, 0 <= k < 23 -> 0 <= algn k < 16 /\ 0 <= sz k < 16) ->
+  rho "info->present" = present -> 0 <= present < 2 ^ 32 -> rho "radiotap_ns.n_bits" = 23 ->
+  rho "info->antenna_count" = cnt -> 0 <= cnt <= 255 -> rho "&rtap_data" = base -> 0 <= base < 2 ^ 62 ->
+  rho "&info->antennas" = ants -> 0 <= ants < 2 ^ 62 -> rho "radiotap_header" = hdr -> 0 <= hdr < 2 ^ 62 ->
+  let L := lay algn cnt 23 0 present 0 in
+  exists rho' evs,
+    (forall F, (400 <= F)%nat ->
+       exec F m rho [] body_libwifi_create_radiotap =
+         Returned (Some (8 + L)) rho'
+           (evs ++ [("memcpy", [hdr; wrap u64 (rho "&rtap_hdr"); 8]); ("memcpy", [hdr + 8; base; L])])) /\
+    fills_from base evs (base + L) /\ 0 <= L <= 18400 /\
+    rho' "offset" = L /\ rho' "rtap_hdr.it_len" = 8 + L /\ rho' "rtap_hdr.it_present" = present /\
+    rho' "rtap_hdr.it_version" = 0 /\ rho' "rtap_hdr.it_pad" = 0.
+Proof. exact code_rtgen_layout. Qed.
+Print Assumptions c10_code_rtgen_layout.
+
